@@ -184,8 +184,27 @@ pub struct World { pub slots: Vec<Option<Cache>>, pub universe: u32, pub cfg: (u
 
 pub struct StepOut { pub res: String, pub visits: String, pub dropped: Vec<u64>, pub hashes: u64, pub calls: String, pub obs_slot: Option<usize> }
 
+/// F = next(), B = next_back(): the result is reported. f / b = the same step with the result discarded at once and not
+/// reported; a run of k lower-case letters followed by the upper-case letter of the same direction is executed as ONE call
+/// of nth(k) / nth_back(k) (what skip and step_by use), which must behave like those k+1 single steps.
 pub fn run_pat<I: DoubleEndedIterator>(it: &mut I, pat: &str, f: &mut dyn FnMut(Option<I::Item>)) {
-    for ch in pat.chars() { let x = if ch == 'F' { it.next() } else { it.next_back() }; f(x); }
+    let cs: Vec<char> = pat.chars().collect();
+    let mut i = 0;
+    while i < cs.len() {
+        let ch = cs[i];
+        if ch == 'F' { f(it.next()); i += 1; continue; }
+        if ch == 'B' { f(it.next_back()); i += 1; continue; }
+        let up = ch.to_ascii_uppercase();
+        let mut j = i; while j < cs.len() && cs[j] == ch { j += 1; }
+        if j < cs.len() && cs[j] == up {
+            let k = j - i;
+            f(if up == 'F' { it.nth(k) } else { it.nth_back(k) });
+            i = j + 1;
+        } else {
+            for _ in i..j { if up == 'F' { drop(it.next()); } else { drop(it.next_back()); } }
+            i = j;
+        }
+    }
 }
 
 pub fn exec(w: &mut World, slot: usize, op: &Op) -> StepOut {
@@ -387,7 +406,7 @@ pub fn finish(w: &mut World, out: &mut impl std::io::Write, leak_rest: bool) {
 
 pub fn rand_pat(rng: &mut Rng, len_hint: usize) -> String {
     let n = match rng.below(4) { 0 => rng.below(3), 1 => len_hint as u64 + rng.below(4), _ => rng.below(len_hint as u64 + 3) };
-    (0..n).map(|_| if rng.below(2) == 0 { 'F' } else { 'B' }).collect()
+    (0..n).map(|_| match rng.below(10) { 0 => 'f', 1 => 'b', x if x % 2 == 0 => 'F', _ => 'B' }).collect()
 }
 
 pub fn gen_trace(seed: u64, t: u64, steps: usize, profile: &str, out: &mut impl std::io::Write) {
